@@ -2,6 +2,7 @@ package props
 
 import (
 	"fmt"
+	"os"
 	"strings"
 	"sync"
 
@@ -123,6 +124,12 @@ func c03build() {
 		add("remove-parent-of-populated-dir", append(dir, fsx.Step{K: "Remove", P: "a"}, fsx.Step{K: "Remove", P: "a/b"}, fsx.Step{K: "RemoveAll", P: "a/b"}, fsx.Step{K: "Remove", P: "a"})...)
 		add("file-to-dir-and-back", fsx.Step{K: "WriteFullFile", P: "a", Data: "x", Perm: 0o644}, fsx.Step{K: "Remove", P: "a"}, fsx.Step{K: "Mkdir", P: "a", Perm: 0o755},
 			fsx.Step{K: "WriteFullFile", P: "a/b", Data: "y", Perm: 0o644}, fsx.Step{K: "Rename", P: "a/b", P2: "b"}, fsx.Step{K: "Rename", P: "b", P2: "a/b"}, fsx.Step{K: "Rename", P: "a", P2: "ab"}, fsx.Step{K: "Remove", P: "a"})
+		// metadata and data calls through open handles (also handles on directories and on the root)
+		for _, target := range []string{"a", "."} {
+			for _, op := range []fsx.Step{{K: "H.Chmod", Perm: 0o700}, {K: "H.Chmod", Perm: 0o644}, {K: "H.Chtimes", MTime: 1_500_000_000}, {K: "H.Truncate", Off: 0}, {K: "H.Truncate", Off: 5}, {K: "H.Write", Data: "x"}, {K: "H.WriteAt", Data: "x", Off: 2}, {K: "H.Sync"}} {
+				add("handle-on-dir:"+target+":"+op.K, append(append([]fsx.Step(nil), dir...), fsx.Step{K: "Open", P: target, Flag: os.O_RDONLY}, op, fsx.Step{K: "H.Close"})...)
+			}
+		}
 		add("rename-across-mount-points", fsx.Step{K: "WriteFullFile", P: "c", Data: "top", Perm: 0o644}, fsx.Step{K: "Rename", P: "c", P2: "a/c"}, fsx.Step{K: "Rename", P: "a/c", P2: "a/b/c"},
 			fsx.Step{K: "Rename", P: "a/b/c", P2: "ab/c"}, fsx.Step{K: "Rename", P: "ab/c", P2: "c"}, fsx.Step{K: "Rename", P: "a", P2: "b"}, fsx.Step{K: "Rename", P: "a/b", P2: "b"}, fsx.Step{K: "RemoveAll", P: "a"})
 	})
@@ -179,6 +186,7 @@ func c03run(env *core.Env, idx int) core.CaseResult {
 	var hs fsx.Handles
 	defer hs.CloseAll()
 	var hist []fsx.Step
+	slots := map[int][2]string{} // slot -> path, situation of the path when the handle was opened
 	okMut, failed := 0, 0
 	tree, _ := fsx.Snapshot(sub.fs, nil)
 	check := func(st fsx.Step, sit string, i int) bool {
@@ -199,6 +207,9 @@ func c03run(env *core.Env, idx int) core.CaseResult {
 		if random {
 			for try := 0; ; try++ {
 				st = gen.Namespace(tree, !sub.viewTop)
+				if gen.R.Intn(5) == 0 {
+					st = c03handleStep(gen, tree)
+				}
 				if try > 20 || !env.Known.KnownSituation("C03", fmt.Sprintf("C03|%s|%s|%s|", subjKind(sname), st.K, c03sit(sname, sub.fs, st))) {
 					break
 				}
@@ -210,9 +221,30 @@ func c03run(env *core.Env, idx int) core.CaseResult {
 			}
 		}
 		sit := c03sit(sname, sub.fs, st)
+		if strings.HasPrefix(st.K, "H.") {
+			// a handle call: what the handle was opened on, and what its path names now
+			sit = "handle:none"
+			if o, ok := slots[st.Slot]; ok {
+				sit = fmt.Sprintf("handle:opened=%s,now=%s", o[1], fsx.PathSit(sub.fs, o[0]))
+			}
+		}
 		hist = append(hist, st)
 		sub.budget.Reset()
+		openedOn := ""
+		if st.K == "Open" {
+			openedOn = fsx.PathSit(sub.fs, st.P)
+			delete(slots, st.Slot)
+		}
 		r := fsx.Exec(sub.fs, st, &hs, nil)
+		if st.K == "Open" && r.OK() {
+			if openedOn == "missing" {
+				openedOn = "created"
+			}
+			slots[st.Slot] = [2]string{st.P, openedOn}
+		}
+		if st.K == "H.Close" {
+			delete(slots, st.Slot)
+		}
 		if env.Verbose {
 			fmt.Printf("step %d %-45s [%s] -> %s\n", i, st, sit, r)
 		}
@@ -248,6 +280,31 @@ func c03run(env *core.Env, idx int) core.CaseResult {
 		res.Sample = map[string]any{"subject": sname, "case": cs.Name, "history": fsx.HistoryString(hist)}
 	}
 	return res
+}
+
+// c03handleStep opens existing paths (files, directories, the root) into slots 0..2 and calls the handle's mutators.
+// Handles whose path was removed, renamed or replaced meanwhile stay in their slots and keep being used.
+func c03handleStep(g *fsx.Gen, tree fsx.Snap) fsx.Step {
+	slot := g.R.Intn(3)
+	switch k := g.R.Intn(20); {
+	case k < 6:
+		fl := []int{os.O_RDONLY, os.O_RDONLY, os.O_RDWR, os.O_WRONLY, os.O_RDWR | os.O_APPEND, os.O_RDWR | os.O_CREATE}[g.R.Intn(6)]
+		return fsx.Step{K: "Open", P: g.Path(tree), Flag: fl, Perm: 0o644, Slot: slot}
+	case k < 9:
+		return fsx.Step{K: "H.Chmod", Slot: slot, Perm: fsx.ChmodModes[g.R.Intn(len(fsx.ChmodModes))]}
+	case k < 11:
+		return fsx.Step{K: "H.Chtimes", Slot: slot, MTime: 1_400_000_000 + int64(g.R.Intn(100000))}
+	case k < 13:
+		return fsx.Step{K: "H.Truncate", Slot: slot, Off: int64(g.R.Intn(12))}
+	case k < 16:
+		return fsx.Step{K: "H.Write", Slot: slot, Data: g.Content()}
+	case k < 17:
+		return fsx.Step{K: "H.WriteAt", Slot: slot, Data: g.Content(), Off: int64(g.R.Intn(12))}
+	case k < 18:
+		return fsx.Step{K: "H.Sync", Slot: slot}
+	default:
+		return fsx.Step{K: "H.Close", Slot: slot}
+	}
 }
 
 // subjKind groups subjects for signatures: the store behind a plain keyvalue.FS does not matter to the tree invariant.
